@@ -475,6 +475,16 @@ def generate(rng, tier):
                 rho = make_rho(rng, names, avoid=(tmp,))
                 rho[o["tname"] if role == "tname" else role] = tmp
                 cases.append({"kind": "transform", "rho": rho, "orig": o})
+    # ... the names of keyword parameters of the xarray methods the package calls, given to each dimension
+    # of a cumsum / stencil call in turn (a name must never be passed as a keyword)
+    for word in ("drop", "indexers", "missing_dims", "new_name_or_name_dict", "dim", "axis", "keep_attrs", "mode"):
+        for kind, base in (("cumsum", base9), ("op", base1)):
+            o = copy.deepcopy(base[(len(cases) * 7) % len(base)])
+            names = ctor_names(o["ctor"]) + [d for d, _ in o["dims"]]
+            for victim in [d for d, _ in o["dims"]]:
+                rho = make_rho(rng, names, avoid=(word,))
+                rho[victim] = word
+                cases.append({"kind": kind, "rho": rho, "orig": o})
     # ... every word of the SGRID attribute grammar as the name of each dimension of an SGRID dataset in turn
     for word in ("padding", "high", "low", "both", "none", "padding:", "center"):
         if ":" in word:
